@@ -1217,7 +1217,10 @@ class TmpStore:
         if not os.path.exists(targetpath):
             os.makedirs(targetpath)
 
-        targetname = self._getCleanFilename(oid, serial)
+        # One file per stored record, named after the record's position: a
+        # later savepoint must not overwrite the blob data of an earlier
+        # one, which a rollback makes current again (see reset()).
+        targetname = self._getCleanFilename(oid, p64(self.index[oid]))
         rename_or_copy_blob(blobfilename, targetname, chmod=False)
 
     def loadBlob(self, oid, serial):
@@ -1227,7 +1230,10 @@ class TmpStore:
             raise Unsupported(
                 "Blobs are not supported by the underlying storage %r." %
                 self._storage)
-        filename = self._getCleanFilename(oid, serial)
+        pos = self.index.get(oid)
+        if pos is None:
+            return self._storage.loadBlob(oid, serial)
+        filename = self._getCleanFilename(oid, p64(pos))
         if not os.path.exists(filename):
             return self._storage.loadBlob(oid, serial)
         return filename
